@@ -667,7 +667,14 @@ impl MqttState {
     /// Packet ids are incremented till maximum set inflight messages and reset to 1 after that.
     ///
     fn next_pkid(&mut self) -> u16 {
-        let next_pkid = self.last_pkid + 1;
+        // `max_outgoing_inflight` shrinks when a later CONNACK carries a smaller receive
+        // maximum, which can leave `last_pkid` above it. Start over at 1 in that case
+        // instead of counting past the limit.
+        let next_pkid = if self.last_pkid >= self.max_outgoing_inflight {
+            1
+        } else {
+            self.last_pkid + 1
+        };
 
         // When next packet id is at the edge of inflight queue,
         // set await flag. This instructs eventloop to stop
